@@ -609,6 +609,46 @@ def gating_ir():
     return {'final_checks_shape': shape, 'to_string_guarded': guarded}
 
 
+# ---- (i) what serialisation reads and writes (XMLElement._create_et_xml_element, et_xml_element)
+def serialise_ir():
+    t = parse('musicxml/xmlelement/xmlelement.py')
+    f = find_func(t, 'XMLElement', '_create_et_xml_element')
+    g = None
+    for n in ast.walk(t):
+        if isinstance(n, ast.ClassDef) and n.name == 'XMLElement':
+            for x in n.body:
+                if isinstance(x, ast.FunctionDef) and x.name == 'et_xml_element' and any(ast.unparse(d) == 'property' for d in x.decorator_list):
+                    g = x
+    if f is None or g is None:
+        raise Fail('_create_et_xml_element / et_xml_element not found')
+    exp = ['self._et_xml_element = ET.Element(self.name, {k: str(v) for k, v in self.attributes.items()})',
+           'if self.value_ is not None:\n    self._et_xml_element.text = str(self.value_)',
+           'for child in self.get_children():\n    self._et_xml_element.append(child.et_xml_element)',
+           "ET.indent(self._et_xml_element, space='  ', level=self.get_level())"]
+    got = [ast.unparse(st) for st in f.body if not (isinstance(st, ast.Expr) and isinstance(st.value, ast.Constant))]
+    if got != exp:
+        raise Fail('_create_et_xml_element has changed: ' + ' | '.join(x[:60] for x in got))
+    gb = [ast.unparse(st) for st in g.body if not (isinstance(st, ast.Expr) and isinstance(st.value, ast.Constant))]
+    if gb != ['self._create_et_xml_element()', 'return self._et_xml_element']:
+        raise Fail('et_xml_element has changed: ' + ' | '.join(gb))
+    stores = set()
+    for fn in (f, g):
+        for n in ast.walk(fn):
+            if isinstance(n, (ast.Assign, ast.AugAssign)):
+                for tg in (n.targets if isinstance(n, ast.Assign) else [n.target]):
+                    root = tg
+                    chain = []
+                    while isinstance(root, (ast.Attribute, ast.Subscript)):
+                        if isinstance(root, ast.Attribute):
+                            chain.append(root.attr)
+                        root = root.value
+                    if isinstance(root, ast.Name) and root.id == 'self':
+                        stores.add(chain[-1])
+                    elif isinstance(root, ast.Name) and root.id in ('k', 'v', 'child'):
+                        raise Fail('serialisation assigns through ' + root.id)
+    return {'stores': sorted(stores), 'attributes': 'all of self.attributes, str(v)', 'text': 'str(self.value_) unless None', 'children': 'get_children() order'}
+
+
 def cq(s):
     return q(str(s))
 
@@ -734,6 +774,15 @@ def main():
         o.append('Definition tr_gating_ok := false. (* %s *)' % str(ex).replace('*', ' ').replace('\n', ' '))
         o.append('Definition final_checks_shape := NoGuard.')
         o.append('Definition to_string_guarded := false.')
+    try:
+        si = serialise_ir()
+        side['serialise'] = si
+        o.append('Definition tr_serialise_ok := true.')
+        o.append('Definition serialise_stores : list string := [' + '; '.join(cq(x) for x in si['stores']) + '].')
+    except Fail as ex:
+        side['serialise'] = 'FAILED: ' + str(ex)
+        o.append('Definition tr_serialise_ok := false. (* %s *)' % str(ex).replace('*', ' ').replace('\n', ' '))
+        o.append('Definition serialise_stores : list string := [].')
     ch = write_if_changed(os.path.join(VERIF, 'coq', 'Gen', 'Code.v'), '\n'.join(o) + '\n')
     write_if_changed(os.path.join(VERIF, 'build', 'code.json'), json.dumps(side, sort_keys=True, indent=1))
     print('code: write=%s opens=%s prints=%s caches=%s changed=%s' % (
